@@ -40,6 +40,10 @@ type Interpreter struct {
 	IdentResolver func(v string) value.Value
 
 	TestingState State
+
+	// passed is true while the current request is being passed (vcl_pass was entered):
+	// a passed response must not be stored in the cache
+	passed bool
 }
 
 func New(options ...context.Option) *Interpreter {
@@ -312,6 +316,7 @@ func (i *Interpreter) ProcessBackends(statements []ast.Statement) error {
 
 func (i *Interpreter) ProcessRecv() error {
 	i.SetScope(context.RecvScope)
+	i.passed = false
 
 	// Simulate Fastly statement lifecycle
 	// see: https://developer.fastly.com/learning/vcl/using/#the-vcl-request-lifecycle
@@ -530,6 +535,7 @@ func (i *Interpreter) ProcessHit() error {
 
 func (i *Interpreter) ProcessPass() error {
 	i.SetScope(context.PassScope)
+	i.passed = true
 
 	if i.ctx.Backend == nil {
 		return exception.Runtime(nil, "No backend determined in PASS")
@@ -622,7 +628,9 @@ func (i *Interpreter) ProcessFetch() error {
 		}
 	}
 
-	i.updateCache()
+	if !i.passed {
+		i.updateCache()
+	}
 	switch state {
 	case DELIVER, DELIVER_STALE, PASS, HIT_FOR_PASS:
 		i.Debugger.Message(fmt.Sprintf("Move state: %s -> DELIVER", i.ctx.Scope))
